@@ -33,6 +33,24 @@ PLAN = {
         "assumptions": ["defaultdict(int) zero-insertion on read is not modelled by the VC generator (checked natively by the frame clause)"],
         "not_decided": [],
     },
+    "C02": {
+        "functions": [
+            "aldy.major.solve_major_model",
+            "aldy.lpinterface.Gurobi.prod",
+            "aldy.lpinterface.Gurobi.abssum",
+            "aldy.coverage.Coverage.single_copy",
+            "aldy.coverage.Coverage.coverage",
+            "aldy.coverage.Coverage.__getitem__",
+            "aldy.gene.Gene.has_coverage",
+            "aldy.solutions.CNSolution.position_cn",
+        ],
+        "timeout_ms": 20000,
+        "level": "other",
+        "assumptions": ["CBC / OR-Tools returns true optima of the emitted model (assumed solver contract)",
+                        "variables are identified by (name template, hole values): no two addVar calls of one site use the same name"],
+        "not_decided": ["read-out of the enumerated solutions (after setObjective) is covered only by the bounded native check",
+                        "agreement with independent solvers"],
+    },
     "C18": {
         "functions": ["aldy.profile.Profile.update"],
         "assumptions": ["str.lower, int(str), float(str) are uninterpreted functions (parses_int / parses_float / str_lower)"],
